@@ -8,42 +8,7 @@ V = os.path.dirname(os.path.dirname(os.path.abspath(__file__)))
 COMMON_NOTE = ("Trusted base: Lean 4.33.0 kernel with axioms propext/Classical.choice/Quot.sound only (audited each run by "
                "#print axioms; no sorry/native_decide/own axioms), the Python correspondence harness and AST extractor. ")
 
-CHECKS = {
-    "C02": dict(
-        text="Theorems for all plans, all requested sets and all optimizer parameters: one fuse_predecessors rewrite preserves every "
-             "block of every surviving array (fuse_step_preserves, built on fuse_multiple_correct), any sequence of such rewrites "
-             "preserves every requested array and keeps it materialized; the guards of can_fuse_predecessors imply the side "
-             "conditions. The legacy pairwise optimizer is proved correct only for single-key successors; its failure on stream "
-             "successors is proved by witness and listed as a known finding. Tied to the code by differential correspondence of all "
-             "real optimizers against the executable structural model on real plan DAGs.",
-        ref="§5 C02, Appendix A.1/A.2",
-        note="Modelled not verified: networkx graph operations and topological_sort (order validated on every dag), dag.copy() "
-             "isolation, NumPy kernels. The link 'the real optimizer run is a FuseSeq of StepOK steps' rests on the structural "
-             "correspondence plus canFuse_guards; key-function hypotheses (NameIndep/Unfused/ReadsFrom) are validated by C15's check.",
-        technique="Lean 4 proof (store-agreement invariant, induction over op lists and rewrite sequences) + differential correspondence with the real optimizers",
-    ),
-    "C04": dict(
-        text="Theorems over the structural plan model: a plan with any op projecting more than allowed_mem is refused with no event "
-             "and no write, otherwise execution proceeds; every non-forcing optimizer configuration maps admitted plans to admitted "
-             "plans (induction over the visiting order); fused ops never report less memory than any op they replace. Comparison "
-             "operators, 'execute validates first' and 'fused mem is max' are regenerated from the source each run, so changing them "
-             "breaks the proofs. Correspondence: admission and optimizer model vs real plans at and around the boundary.",
-        ref="§5 C04",
-        note="Modelled not verified: the per-op projected_mem numbers themselves (C03), that nothing between validate() and "
-             "execute_dag touches storage (observed by the oracle: executor not entered, work_dir untouched).",
-        technique="Lean 4 proof over a model with source-regenerated operators + boundary-value differential oracle",
-    ),
-    "C15": dict(
-        text="Theorems for all index expressions and all fusion trees (any depth, lists/streams/repeated args): the positional dask "
-             "coordinate algebra equals the reference reading of the index expression, keys stay in bounds, fuse_multiple preserves "
-             "what every original function receives. Tied to the code by differential correspondence of the real key-function "
-             "builders and fuse_blockwise_specs against the model's executable definitions.",
-        ref="§5 C15, Appendix A.1",
-        note="Modelled not verified: Python set/dict iteration order inside _get_coord_mapping (proved irrelevant), the symbolic block "
-             "functions used to observe fusion. Hypotheses NameIndep/Unfused are validated on every real key function evaluated.",
-        technique="Lean 4 proof (induction over key trees / list positions) + differential correspondence with the real key functions",
-    ),
-}
+CHECKS = json.load(open(os.path.join(V, "tools", "checks.json")))
 
 NOT_YET = "check not built yet in this session (work in progress; see DESIGN.md §8 for the order of work)"
 
